@@ -320,7 +320,7 @@ pub fn dispatch(line: &str) -> String {
         "TrainState" => <TrainStateTag as FileEntry>::call(&req),
         "BrakingPoints" | "W_Recalc" => <BrakingPointTag as FileEntry>::call(&req),
         "TrainSimBuilder" => <TrainConfigTag as FileEntry>::call(&req),
-        "SpeedLimitTrainSim" => <SpeedLimitTrainSimTag as FileEntry>::call(&req),
+        "SpeedLimitTrainSim" | "W_TimedWalk" => <SpeedLimitTrainSimTag as FileEntry>::call(&req),
         "<free>" if req["calls"][0]["fn"].as_str().unwrap_or("").ends_with("Network as SerdeAPI>::from_file") => <LinkImplTag as FileEntry>::call(&req),
         "<free>" => run_free(&req),
         "Vec<link_impl::Link>" => run::<Vec<crate::track::Link>>(&req, call_links),
